@@ -13,6 +13,15 @@ def P(src, variant, name, args=None, tiers=('quick', 'thorough'), tier_args=None
 
 
 CHECKS = {
+    'C08': {
+        'engine': 'seqx',
+        'rule': 'stringify/parse round trip over reachable Value states and a product set',
+        'parts': [
+            P('props/C08.cpp', 'asan', 'roundtrip-asan', tier_args={'quick': ['--depth', '2'], 'thorough': ['--depth', '3', '--cap', '300000']}),
+            P('props/C08.cpp', 'fast', 'roundtrip-fast', tier_args={'quick': ['--depth', '3'], 'thorough': ['--depth', '4']}),
+        ],
+        'floor': {'quick': 1000, 'thorough': 1000},
+    },
     'C18': {
         'engine': 'langx',
         'rule': 'all small arrays of objects vs reference partition',
